@@ -350,6 +350,11 @@ func (runInfo *runInfoStruct) invokeMemberExpr(expr *ast.MemberExpr) {
 	}
 
 	if env, ok := runInfo.rv.Interface().(*env.Env); ok {
+		if env == nil {
+			runInfo.err = newStringError(expr, "module is nil")
+			runInfo.rv = nilValue
+			return
+		}
 		runInfo.rv, runInfo.err = env.GetValue(expr.Name)
 		if runInfo.err != nil {
 			runInfo.err = newError(expr, runInfo.err)
